@@ -201,6 +201,8 @@ def encBody : WBody → String
   | .raw b => "r" ++ encodeHex b
   | .form m => "f" ++ encPairs ((sortBy (fun e => e.1) m).flatMap fun e => e.2.map fun v => (e.1, v))
   | .ordered kvs => "f" ++ encPairs kvs
+  | .orderedForm kvs m =>
+    "f" ++ encPairs (kvs ++ (sortBy (fun e => e.1) m).flatMap fun e => e.2.map fun v => (e.1, v))
   | .multipart fields files =>
     "p" ++ encPairs (sortBy (fun e => e.1) fields) ++ "/" ++
       (if files.isEmpty then "-" else ";".intercalate (files.map encFilePart))
